@@ -23,6 +23,7 @@ static struct elem pool[MAXN];
 static int N, keys[MAXN], nalpha, alpha[MAXN + 1], maxdup;
 static int NCOUNTS, counts[8], NF;
 static char cfgdesc[256];
+static int vcookie, vbad;       /* every visit callback must receive the private pointer the caller passed */
 static struct cstl_hash TB[2];
 static int cur;                               /* which object currently is "the table" (toggled by swap) */
 
@@ -114,7 +115,7 @@ static const char *w_config_desc(void) { return cfgdesc; }
 static void w_init(void)
 {
     int i, t;
-    shim_reset();
+    shim_reset(); vbad = 0;
     __asan_unpoison_memory_region(pool, sizeof pool);
     memset(pool, 0x5A, sizeof pool);
     for (i = 0; i < N; i++) { pool[i].idx = i; pool[i].pad = 0x1111; pool[i].tail = 0x2222; pool[i].pad2 = 0x3333; pool[i].hn.key = (size_t)keys[i]; pool[i].hn.next = NULL; pool[i].hn2.key = (size_t)keys[i]; pool[i].hn2.next = NULL; m_member[i] = 0; }
@@ -199,7 +200,7 @@ static void nested_lookups(void)
 }
 static int cb_find(const void *e, void *p)
 {
-    (void)p;
+    if (p != (void *)&vcookie) vbad++;
     if (v_n < 4 * MAXN + 8) v_seq[v_n] = idx_of(e);
     v_n++;
     if (v_n > 4 * MAXN) return 1;
@@ -209,7 +210,7 @@ static int cb_find(const void *e, void *p)
 }
 static int cb_count_c(const void *e, void *p)
 {
-    (void)p;
+    if (p != (void *)&vcookie) vbad++;
     if (v_n < 4 * MAXN + 8) v_seq[v_n] = idx_of(e);
     v_n++;
     if (v_n > 4 * MAXN) return 9999;
@@ -222,7 +223,7 @@ static int fe_which;
 static int cb_erase(void *e, void *p)
 {
     int i = idx_of(e);
-    (void)p;
+    if (p != (void *)&vcookie) vbad++;
     if (v_n < 4 * MAXN + 8) v_seq[v_n] = i;
     v_n++;
     if (v_n > 4 * MAXN) return 9999;
@@ -277,7 +278,7 @@ static int probe_body(size_t n, int f)
     if (cstl_hash_size(T) != (size_t)N) return 2;
     for (i = 0; i < N; i++) { r = cstl_hash_find(T, (size_t)keys[i], NULL, NULL); if (r == NULL || keys[idx_of(r) < 0 ? 0 : idx_of(r)] != keys[i]) return 3; }
     v_n = 0; v_stop_at = -1;
-    if (cstl_hash_foreach_const(T, cb_count_c, NULL) != 0 || v_n != N) return 4;
+    if (cstl_hash_foreach_const(T, cb_count_c, &vcookie) != 0 || v_n != N) return 4;
     ld = cstl_hash_load(T);
     if (ld != (float)N / (float)n) return 5;
     cstl_hash_clear(T, NULL);
@@ -362,7 +363,7 @@ static void w_apply(mc_op_t o)
         if (b >= 1 && nk > 1) MC_COUNT(K_FIND_DUP_VISITOR);
         v_n = 0; v_accept_at = b >= 2 ? b - 2 : -1; v_key = (size_t)k;
         if (mc_checking && !re) keyed_pre();
-        SHIM_CALL(ab, rp = cstl_hash_find(T, (size_t)k, b == 0 ? NULL : cb_find, NULL));
+        SHIM_CALL(ab, rp = cstl_hash_find(T, (size_t)k, b == 0 ? NULL : cb_find, &vcookie));
         v_nested = 0;
         if (ab) break;
         if (mc_checking && !re) keyed_post("find", -1);
@@ -434,7 +435,7 @@ static void w_apply(mc_op_t o)
         if (T->bucket.rh.hash != NULL) MC_COUNT(K_FOREACH_PENDING);
         if (code == O_FOREACH_ERASE) MC_COUNT(K_FE_ERASE);
         v_n = 0; v_stop_at = code == O_FOREACH_STOP ? a : -1; fe_which = a;
-        SHIM_CALL(ab, r = cstl_hash_foreach(T, code == O_FOREACH_ERASE ? cb_erase : cb_count, NULL));
+        SHIM_CALL(ab, r = cstl_hash_foreach(T, code == O_FOREACH_ERASE ? cb_erase : cb_count, &vcookie));
         v_nested = 0;
         __asan_unpoison_memory_region(pool, sizeof pool);
         m_forced_settled = 1;
@@ -500,7 +501,7 @@ static void w_audit(void)
     if (s.pending && s.rhcount > s.count) MC_COUNT(K_FOREACHC_PENDING_GROW);
     /* foreach_const is not a transition (it does not touch the table): evaluated in every state */
     v_n = 0; v_stop_at = -1;
-    SHIM_CALL(ab, r = cstl_hash_foreach_const(T, cb_count_c, NULL));
+    SHIM_CALL(ab, r = cstl_hash_foreach_const(T, cb_count_c, &vcookie));
     if (ab) { MC_CHECK(PC04, 0, "foreach_const aborted"); return; }
     MC_CHECK(PC04, r == 0, "foreach_const returned %d with an always-zero visitor", r);
     MC_CHECK(PC04, v_n == m_count, "foreach_const made %d visits, the table holds %d elements%s", v_n, m_count, s.pending ? " (rehash pending)" : "");
@@ -508,13 +509,13 @@ static void w_audit(void)
     if (mc_branch_dead) return;
     for (j = 0; j < m_count; j++) {
         v_n = 0; v_stop_at = j;
-        SHIM_CALL(ab, r = cstl_hash_foreach_const(T, cb_count_c, NULL));
+        SHIM_CALL(ab, r = cstl_hash_foreach_const(T, cb_count_c, &vcookie));
         MC_CHECK(PC04, !ab && r == ((j & 1) ? -(j + 1) : j + 1) && v_n == j + 1, "foreach_const with a visitor returning %d at visit #%d returned %d after %d visits", (j & 1) ? -(j + 1) : j + 1, j, r, v_n);
     }
     /* with no rehash pending a lookup does not touch the table, so foreach_const's visit function may look elements up */
     if (!s.pending && m_resized && m_count >= 2 && !mc_branch_dead) {
         v_n = 0; v_stop_at = -1; v_nested = 1; nested_bad = nested_calls = 0;
-        SHIM_CALL(ab, r = cstl_hash_foreach_const(T, cb_count_c, NULL));
+        SHIM_CALL(ab, r = cstl_hash_foreach_const(T, cb_count_c, &vcookie));
         v_nested = 0;
         MC_CHECK(PC04, !ab && r == 0 && v_n == m_count, "foreach_const whose visit function looks elements up (no rehash pending) made %d visits for %d elements", v_n, m_count);
         check_each_once(PC04, "foreach_const (visitor looks elements up)", -1);
@@ -527,6 +528,7 @@ static void w_audit(void)
         MC_CHECK(PC19, heading == m_nreq, "the table is heading for %zu buckets, the most recent request was %zu", heading, m_nreq);
         if (m_freq != F_MUL) MC_CHECK(PC19, fid(s.pending ? T->bucket.rh.hash : T->bucket.hash) == m_freq, "the table is heading for hash function #%d, the most recent request was #%d", fid(s.pending ? T->bucket.rh.hash : T->bucket.hash), m_freq);
     }
+    MC_CHECK(PC03 | PC04, vbad == 0, "a visit callback received a private pointer other than the one the caller passed (%d calls)", vbad);
     for (k = 0; k < N; k++) MC_CHECK(PC03, pool[k].pad == 0x1111 && pool[k].tail == 0x2222 && pool[k].idx == k && pool[k].pad2 == 0x3333 && pool[k].hn.key == (size_t)keys[k] && pool[k].hn2.key == (size_t)keys[k], "element %d: key or bytes outside its hash node were modified", k);
 }
 
@@ -550,7 +552,7 @@ static void canon_one(int t)
 }
 static void w_canon(void)
 {
-    KB_C('c'); KB_U((unsigned)cur); canon_one(0); canon_one(1); KB_C('O'); KB_U(m_off[0]); KB_C(','); KB_U(m_off[1]);
+    KB_C('v'); KB_U((unsigned)(vbad != 0)); KB_C('c'); KB_U((unsigned)cur); canon_one(0); canon_one(1); KB_C('O'); KB_U(m_off[0]); KB_C(','); KB_U(m_off[1]);
     KB_C('m'); KB_U(m_nreq); KB_C('f'); KB_U((unsigned)m_freq); KB_C(m_forced_settled ? 's' : 'u'); KB_C(m_resized ? 'R' : '-');
     { int i; for (i = 0; i < N; i++) KB_C(m_member[i] ? '1' : '0'); }
     { int i; for (i = 0; i < N; i++) if (pool[i].pad != 0x1111 || pool[i].tail != 0x2222 || pool[i].pad2 != 0x3333) { KB_C('X'); KB_U((unsigned)i); } }
